@@ -265,6 +265,11 @@ def check_pair(case, sub="pairs"):
             raise Violation(sub, "not-reflexive", method, icls, "a circuit compares unequal to its copy")
     if c1.to_openqasm() != q1 or c2.to_openqasm() != q2:
         raise Violation(sub, "argument-mutated", "compare_circuits", "plain", "comparison changed a circuit")
+    # after all these comparisons c1 still compares equal to an independent fresh build of the same operations
+    c1_fresh = gc.build(d1)
+    for method in [m_ for m_ in case.get("methods", METHODS) if not m_.startswith("GED")]:
+        if not guarded(sub, "fresh_build", compare_circuits, c1, c1_fresh, method=method):
+            raise Violation(sub, "not-reflexive", method, "fresh_build", "a circuit that took part in earlier comparisons compares unequal to a fresh build of the same operations")
     # a circuit that has been compared is edited in place (one gate replaced on its node) and compared again: the answers must
     # be about the circuit as it is now
     c2b, objs2 = gc.build(d2, return_ops=True)
